@@ -36,7 +36,7 @@ CHECKS = {
          "Healthy side: full and quick validation after every archive-changing step of generated histories (a third of them with names of exactly 255 bytes), and of two large archives written with default options (a combined block above the block size, a multi-block file, 300 blocks), must be silent, on both runtime flavours. Damage side: for EVERY file of generated archives x {delete, truncate 0, truncate half, garbage} and 8 bit flips per block, harm is decided by restoring every complete version and comparing with its pre-damage tree; every harmful damage must be reported by full validation (and deletions by quick validation), also with a stale GC_LOCK in the archive; a 300-block archive is validated in a process limited to 160 open files.",
          "Trusted: restore-and-compare as the definition of harm; 'version' restricted to complete versions.", "3 C09"),
  "C10": ("fault_enumeration", "runtime monitor: every single-file damage of generated archives run through a child process; crash/termination, containment and follow-up-backup oracles; valgrind memcheck replay of hostile-byte cases",
-         "For EVERY file of generated archives x {delete, truncate 0, truncate half, garbage} plus seeded bit flips in every file and JSON-level flips that keep hunks decodable, plus hunk damage on both sides of the index-subdirectory boundary of a 10 040-hunk version, a child process (for a quarter of the damages also one that holds and keeps using an Archive handle opened before the damage) runs versions / ls / restore of every band (whole, and restricted to up to four top-level directories) / validate full+quick / backup / restore; the parent decides normal termination (panic, abort, signal, operation-budget overrun), exact restoration of every entry that does not depend on the damaged file, error reporting for entries whose hunk or block became missing or undecodable or whose band's head is present but unreadable, and an exact follow-up backup after deletions and truncations. A sample of hostile-byte cases is replayed under valgrind memcheck.",
+         "For EVERY file of generated archives x {delete, truncate 0, truncate half, garbage} plus seeded bit flips in every file and JSON-level flips and out-of-range field values that keep hunks, heads and tails decodable, plus hunk damage on both sides of the index-subdirectory boundary of a 10 040-hunk version, a child process (for a quarter of the damages also one that holds and keeps using an Archive handle opened before the damage) runs versions / ls / restore of every band (whole, and restricted to up to four top-level directories) / validate full+quick / backup / restore; the parent decides normal termination (panic, abort, signal, operation-budget overrun), exact restoration of every entry that does not depend on the damaged file, error reporting for entries whose hunk or block became missing or undecodable or whose band's head is present but unreadable, and an exact follow-up backup after deletions and truncations. A sample of hostile-byte cases is replayed under valgrind memcheck.",
          "Trusted: E2 reader for the dependency analysis; 'hang' is decided as an operation budget (1000x fault-free), wall-clock watchdog is inconclusive; AddressSanitizer build was not possible (old rustix in the dependency tree does not build on nightly), memcheck is used instead.", "3 C10"),
  "C11": ("exploration", "runtime monitor: executable order/validity model compared with Apath on exhaustive small alphabets + emitters observed on generated trees",
          "All pairs/triples of valid paths over two alphabets up to depth 4/3 and every string over a 13-component alphabet (exhaustive within the bound) are compared against an independent statement of the documented order and validity rule; the source walk, listings (also of versions stitched from chains of killed backups, and of a version with more than 10 000 hunks) and independently decoded hunks of generated trees must be strictly increasing under it, also for trees holding names that are not UTF-8, and for the indexes written by first backups in which any one write (block, hunk, head, tail) was refused.",
@@ -101,7 +101,7 @@ def main():
              "kind_free_text": "Rust harness linking the real conserve library with the verif_hooks transport interceptor: workload generators, fault/crash/schedule injection at the storage boundary, independent format-0.6 reader/writer, snapshot oracles, evidence writer"},
         ],
         "checks": checks,
-        "notes": "Runtime monitoring only: every verdict comes from oracles observing executions of the real code. Exit 0 held on everything explored, 1 + VIOLATION line, 2 inconclusive (monitors observed too little; never expected on a working tree). Known findings: /verif/KNOWN_FINDINGS.txt (21 'fixed:' lines for the fix: commits in /repo, one 'known:' line - K2, property C04 - which C04 prints as KNOWN-FINDING on every run; see DESIGN.md section 5). A hard wall-clock watchdog (CV_HARD_S) ends a hung check with exit 2.",
+        "notes": "Runtime monitoring only: every verdict comes from oracles observing executions of the real code. Exit 0 held on everything explored, 1 + VIOLATION line, 2 inconclusive (monitors observed too little; never expected on a working tree). Known findings: /verif/KNOWN_FINDINGS.txt (23 'fixed:' lines for the fix: commits in /repo, one 'known:' line - K2, property C04 - which C04 prints as KNOWN-FINDING on every run; see DESIGN.md section 5). A hard wall-clock watchdog (CV_HARD_S) ends a hung check with exit 2.",
         "not_applicable": na,
     }
     path = os.path.join(HERE, "MANIFEST.json")
